@@ -349,6 +349,27 @@ func Enumerate[C any](t *testing.T, prop, rule string, each func(yield func(C) b
 	st := newStats(prop, rule)
 	st.Exhaustive = true
 	defer st.flush(start)
+	judge := func(c C, fatal func(string)) {
+		raw, _ := json.Marshal(c)
+		v := interp(c)
+		st.record(raw, v)
+		if v.Fail != "" && !(v.Known != "" && KnownOpen(prop, v.Known)) {
+			p := writeReplay(prop, rule, raw, v)
+			st.Failures = append(st.Failures, failure{Message: v.Fail, Replay: p})
+			fatal(v.Fail)
+		}
+	}
+	if rp := os.Getenv("VERIF_REPLAY"); rp != "" {
+		replayOne(t, prop, rule, rp, st, judge)
+		return
+	}
+	if dir := os.Getenv("VERIF_REGRESS"); dir != "" {
+		files, _ := filepath.Glob(filepath.Join(dir, prop, rule+"-*.json"))
+		sort.Strings(files)
+		for _, f := range files {
+			replayOne(t, prop, rule, f, st, judge)
+		}
+	}
 	si, sn := shard()
 	idx := 0
 	each(func(c C) bool {
